@@ -24,6 +24,8 @@
      9 te_params
      10 gt_rel    PairingOutput over the kind-12 tower: a[2..4] = x y z, a[5] = [eL; eR]
                   -> [eq] [cmp] [eq] [is_zero L; is_zero R]
+     11 gt_pair   a[2] = g = e(G1, G2) (12 coordinates), a[3] = [s1; s2; t1; t2; mode; r]
+                  -> as gt_rel;  13 gt_params -> a[1] a[2]
      12 poly_rel  a[0] = [cfg; 1; N], a[1] = [p], a[2] = p coeffs, a[3] = q coeffs, a[4] = [eL; eR]
                   -> [dense eq] [dense eq] [is_zero L; is_zero R] [sparse eq] [sparse eq] [deg L; deg R]
 *)
@@ -70,6 +72,24 @@ Section RunField.
             let R := repr (ev (argz 5 1 a)) in
             ok [[b2z (gt_eqb C L R)]; [cmp2z (gt_cmp C L R)]; [b2z (gt_eqb C L R)];
                 [b2z (gt_is_zero C L); b2z (gt_is_zero C R)]]
+    | 11 =>
+        (* pairing outputs given by exponents of g = e(G1, G2):  L = e(s1 G1, s2 G2) = g^(s1 s2);
+           R = e(t1 G1, t2 G2) | g * t1 * t2 | e(t1 G1, G2) + e(G1, t2 G2) | multi_pairing | -e(t1 G1, t2 G2) *)
+        let g := fof F (arg 2 a) in
+        let s1 := argz 3 0 a in let s2 := argz 3 1 a in
+        let t1 := argz 3 2 a in let t2 := argz 3 3 a in
+        let mode := argz 3 4 a in let r := argz 3 5 a in
+        let eL := (s1 * s2) mod r in
+        let eR := match mode with
+                  | 0 | 1 => (t1 * t2) mod r
+                  | 2 | 3 => (t1 + t2) mod r
+                  | _ => (- (t1 * t2)) mod r
+                  end in
+        let L := repr (fpow F g eL) in
+        let R := repr (fpow F g eR) in
+        ok [[b2z (gt_eqb C L R)]; [cmp2z (gt_cmp C L R)]; [b2z (gt_eqb C L R)];
+            [b2z (gt_is_zero C L); b2z (gt_is_zero C R)]]
+    | 13 => ok [arg 1 a; arg 2 a]
     | _ => unsupported
     end.
 
@@ -149,7 +169,7 @@ Section RunField.
 
   Definition run_any (op : Z) (a : list (list Z)) : list (list Z) :=
     match op with
-    | 1 | 2 | 3 | 10 => run_field op a
+    | 1 | 2 | 3 | 10 | 11 | 13 => run_field op a
     | 6 | 7 => run_sw op a
     | 8 | 9 => run_te op a
     | 12 => run_poly op a
